@@ -100,6 +100,10 @@ def main():
             print("patch does not apply to the current /repo HEAD (the code it changes has been fixed since):", out.strip()[:300])
             meta["note"] = "patch no longer applies to the current HEAD: " + out.strip()[:200]
             checks = []
+        # the checks rewrite evidence/<id>.json: what a run against a seeded tree writes must not stay behind
+        ev_backup = os.path.join("/tmp", f"evidence-backup-{os.getpid()}")
+        shutil.rmtree(ev_backup, ignore_errors=True)
+        shutil.copytree(os.path.join(ROOT, "evidence"), ev_backup)
         try:
             for c in checks:
                 rc, out = sh([sys.executable, os.path.join(ROOT, "check.py"), c, "--tier", tier], cwd=ROOT, timeout=7200)
@@ -119,6 +123,10 @@ def main():
                 print(c, "->", rc, viol[:3])
         finally:
             sh(["git", "-C", "/repo", "checkout", "--", "."])
+            for f in os.listdir(ev_backup):
+                shutil.copy(os.path.join(ev_backup, f), os.path.join(ROOT, "evidence", f))
+            shutil.rmtree(ev_backup, ignore_errors=True)
+            shutil.rmtree(os.path.join(ROOT, "replay"), ignore_errors=True)
     # 3. keep
     dst = os.path.join(ROOT, "seeded", name)
     os.makedirs(dst, exist_ok=True)
